@@ -669,8 +669,10 @@ impl TypeChecker {
             self.resolve_type(&examinee_type)
         };
 
-        if diverges {
-            todo!("make a pretty error")
+        // If the examinee diverges, no arm can ever run. Without arms we
+        // fall through to the regular checks on the examinee's type.
+        if diverges && let Some(arm) = arms.first() {
+            return Err(self.error_unreachable_expression(&arm.body));
         }
 
         let Type::Name(type_name) = &t_expr else {
@@ -1298,8 +1300,8 @@ impl TypeChecker {
                 }))
             }
             DeclarationKind::Enum(Some((ty, variant))) => {
-                if let Some(_field) = idents.next() {
-                    todo!("make a nice error for variant cannot have field")
+                if let Some(field) = idents.next() {
+                    return Err(self.error_no_field_on_type(ty, field));
                 }
                 Ok(ResolvedPath::EnumConstructor {
                     ty: ty.clone(),
